@@ -143,6 +143,8 @@ def summ(n):
             return ["lit", n.get("value")]
     if k == "IntegerLiteral":
         return ["int", int(n.get("value"))]
+    if k == "CharacterLiteral":
+        return ["char", int(n.get("value"))]
     if k == "MemberExpr":
         return ["member", n.get("name"), summ(n["inner"][0])]
     if k == "UnaryOperator":
@@ -252,8 +254,8 @@ class _Fn:
             tb = (then.get("_b", (None, None))[1], then.get("_e", (None, None))[1]) if then else (None, None)
             for (tk, subj, nid) in tests:
                 self._guards[nid] = (tk, ex, sorted(ops))
-                if subj[0] == "member":
-                    self.nulltests.append({"member": subj[1], "test": tk, "exits": ex, "ops": sorted(ops),
+                if subj[0] in ("member", "param"):
+                    self.nulltests.append({"member": subj[1], "what": subj[0], "test": tk, "exits": ex, "ops": sorted(ops),
                                            "line": n["_b"][1], "then": tb})
         if k == "VarDecl":
             ty = n.get("type", {}).get("qualType", "")
@@ -541,6 +543,29 @@ class Analysis:
                 return True
         return False
 
+    PATH_FIELDS = ("dirname", "basename", "instrument_path")
+
+    def field_writes(self):
+        """every assignment to m->dirname / m->basename / m->instrument_path in the program"""
+        rows = set()
+        for f in self.fns.values():
+            for a in f["assigns"]:
+                l = a["lhs"]
+                if l[0] == "member" and l[1] in self.PATH_FIELDS:
+                    r = a["rhs"]
+                    if r[0] == "null":
+                        w = ".null"
+                    elif r[0] == "call" and r[2] and len(r[2]) == 1 and self.prov(f, r[2][0])["kind"] == "apiParam":
+                        w = ".ofApiParam " + lean_str(r[1] or "?")
+                    else:
+                        w = ".other " + lean_str(json.dumps(r)[:60])
+                    rows.add((f["file"], f["name"], l[1], w))
+                elif l[0] == "index" and l[1][0] == "member" and l[1][1] in self.PATH_FIELDS:
+                    r = a["rhs"]
+                    w = ".patchChar %d" % r[1] if r[0] == "char" else ".other " + lean_str(json.dumps(r)[:60])
+                    rows.add((f["file"], f["name"], l[1][1], w))
+        return sorted(rows)
+
     # -- fixpoint over wrappers and temp out-parameters -------------------------
     def run(self):
         # temp-name out-parameters
@@ -594,6 +619,10 @@ class Analysis:
                                 continue
                             p = self.prov(f, c["args"][ai])
                             sinks = self.tracked[cal][ai]
+                            if p["kind"] == "helperArgv":
+                                p = dict(p)
+                                p["clean"] = p["clean"] and p.get("pathParam") is not None \
+                                    and self.null_guarded(f, p["pathParam"], c["line"])
                         if p["kind"] == "wrapperParam":
                             cur = self.tracked.setdefault(f["name"], {}).setdefault(p["idx"], set())
                             if not sinks <= cur:
@@ -659,6 +688,14 @@ inductive Prov where
   | other (why : String)
   deriving Repr, DecidableEq
 
+/-- what is stored into the path-carrying fields of `struct module_data` -/
+inductive FieldWrite where
+  | null
+  | ofApiParam (via : String)                  -- f(path) with `path` a parameter of an exported xmp_* function
+  | patchChar (c : Nat)                        -- one character of the string overwritten by a character literal
+  | other (why : String)
+  deriving Repr, DecidableEq
+
 structure Site where
   file : String
   func : String
@@ -696,13 +733,17 @@ def generate(bdir=None, repo=None):
     out.append("/-- functions that return the name of a temporary file through parameter `arg` -/")
     out.append("def tempOutParams : List (String × Nat) := [%s]\n" % ", ".join(
         "(%s, %d)" % (lean_str(n), i) for n, s in sorted(an.tempout.items()) for i in sorted(s)))
+    fw = an.field_writes()
+    out.append("/-- every assignment to `dirname`, `basename`, `instrument_path` of `struct module_data`: (file, function, field, value) -/")
+    out.append("def fieldWrites : List (String × String × String × FieldWrite) := [\n" + ",\n".join(
+        "  (%s, %s, %s, %s)" % (lean_str(a), lean_str(b), lean_str(c), d) for a, b, c, d in fw) + "]\n")
     out.append("/-- number of translation units and function bodies examined -/")
     out.append("def unitsExamined : Nat := %d" % len(units))
     out.append("def functionsExamined : Nat := %d\n" % len(an.fns))
     out.append("end Xmp.Gen.OpenSites\n")
     text = "\n".join(out)
     changed = vlib.write_if_changed(os.path.join(vlib.LEAN, "XmpModel", "Gen", "OpenSites.lean"), text)
-    return {"sites": rows, "wrappers": wrappers, "units": len(units), "functions": len(an.fns), "changed": changed,
+    return {"sites": rows, "wrappers": wrappers, "units": len(units), "functions": len(an.fns), "changed": changed, "field_writes": fw,
             "tempout": {k: sorted(v) for k, v in an.tempout.items()}}
 
 
